@@ -614,7 +614,7 @@ def codec_cases(seed, tier):
     return cases
 
 
-CODEC_ENTRIES = ("ip-parse", "hex-enc", "hex-dec", "b64-enc", "b64-dec", "json-print", "json-read")
+CODEC_ENTRIES = ("ip-parse", "hex-enc", "hex-dec", "b64-enc", "b64-dec", "json-print", "json-read", "bson-enc", "bson-dec")
 
 
 def is_codec(line):
@@ -655,6 +655,10 @@ def run_codec(rep, cases, tag="clicodec"):
         rep.count("codec:" + entry)
         if i in ("CRASH", "ABORT", "HANG"):
             rep.oracle_failures.append(("codec-crash:" + entry, panics.get(cid, ""), c[:2000], i))
+        elif entry == "bson-dec" and m == "bad" and i == "unsupported":
+            # a document the crate reads but that holds an element type its serialiser never writes for a response (the model's
+            # reader covers the types the serialiser writes)
+            rep.count("codec:bson-dec:other-element-type")
         elif m != i and not (entry == "json-read" and same_tokens(m, i)):
             rep.divergences.append((c[:2000], m[:600], i[:600], panics.get(cid, "")))
 
